@@ -77,21 +77,22 @@ const nForms = 8
 // buildEncoded assembles the value from per-byte forms; ok=false when an unterminated reference
 // would swallow the following literal byte (then the text no longer encodes the scheme).
 func buildEncoded(scheme string, forms []int) (string, []int, bool) {
+	return buildEncodedSep(scheme, forms, "")
+}
+
+// buildEncodedSep: as buildEncoded, but where an unterminated reference would swallow the following piece the
+// ignorable byte sep (raw NUL or LF) is put between them: it ends the digit run and the matcher skips it.
+func buildEncodedSep(scheme string, forms []int, sep string) (string, []int, bool) {
 	var b strings.Builder
 	var cuts []int // offsets between pieces (for NUL/LF insertion)
 	prevDec, prevHex := false, false
 	for i := 0; i < len(scheme); i++ {
 		p, od, oh := encodeByte(scheme[i], forms[i])
-		if prevDec && p[0] >= '0' && p[0] <= '9' {
-			return "", nil, false
-		}
-		if prevHex && isHexDigit(p[0]) {
-			return "", nil, false
-		}
-		if prevDec || prevHex {
-			if p[0] == ';' {
+		if (prevDec && p[0] >= '0' && p[0] <= '9') || (prevHex && isHexDigit(p[0])) || ((prevDec || prevHex) && p[0] == ';') {
+			if sep == "" {
 				return "", nil, false
 			}
+			b.WriteString(sep)
 		}
 		cuts = append(cuts, b.Len())
 		b.WriteString(p)
@@ -285,6 +286,11 @@ func init() {
 							}
 							val, cuts, ok := buildEncoded(sc, forms)
 							if !ok {
+								// an unterminated reference in front of a digit-like letter: a raw NUL / LF in between ends the reference
+								for _, sep := range []string{"\x00", "\n"} {
+									v, _, _ := buildEncodedSep(sc, forms, sep)
+									w.Item(v+"//x(1)", fmt.Sprintf("%s forms=%v sep=%q", sc, forms, sep))
+								}
 								return
 							}
 							aux := fmt.Sprintf("%s forms=%v", sc, forms)
